@@ -541,7 +541,9 @@ class ZorgFileCompiler(ZorgFileListener):
                 if not words:
                     continue
                 first_word = words.pop(0)
-                if first_word.endswith("::"):
+                # NOTE: An inline property (e.g. '[key:: some value]') is NOT a
+                # bullet property (the parser already took care of it).
+                if first_word.endswith("::") and not first_word.startswith("["):
                     key = first_word[:-2]
                     value = re.sub(r"\s+", " ", " ".join(words).strip())
                     self._add_prop(key, value)
